@@ -36,6 +36,10 @@ func genC08(r *PRNG, tier string) *Scenario {
 		nctl++
 		return SItem{Kind: "ctl", Op: r.Pick([]int{9, 9, 10}), Data: genCtlData(r), KeyMode: r.PickS([]string{"rand", "zero", "ones"})}
 	}
+	if r.Chance(1, 6) {
+		// ... or before anything else: replies are due however old the connection is
+		script = append(script, SItem{Kind: "pause", PauseMs: int64(r.Pick([]int{1100, 2500, 4500}))})
+	}
 	for i := r.Range(0, 3); i > 0; i-- {
 		script = append(script, ctl())
 	}
@@ -56,6 +60,10 @@ func genC08(r *PRNG, tier string) *Scenario {
 		for k := r.Range(0, 2); k > 0; k-- {
 			script = append(script, ctl())
 		}
+	}
+	if r.Chance(1, 4) {
+		// the peer idles before it closes: the echo is due whenever the close arrives
+		script = append(script, SItem{Kind: "pause", PauseMs: int64(r.Pick([]int{1100, 2500, 4500}))})
 	}
 	cl := SItem{Kind: "ctl", Op: 8}
 	switch r.Intn(4) {
